@@ -27,7 +27,7 @@ RULE = (
     "(base configuration: 4 operand dimension patterns) x (length pattern: all-2, all-3, 2/3/2/3) x (every "
     "permutation of each participant's storage order, one participant at a time; all joint permutations when "
     "every participant has <= 3 dims). Non-trivial = permuted participant has >= 2 dims and the permutation is "
-    "not the identity. Distinct by construction."
+    "not the identity; every permuted variant is run with three rotations of the value-buffer provenances (C, Fortran, strided view) over the participants. Distinct by construction."
 )
 ASSUMPTIONS = [
     "values are integer label codes (exact sums in any summation order); divisors are powers of two",
@@ -230,9 +230,9 @@ def run_op(opname, pattern, letters, provs=None):
     return c, l
 
 
-def run_case(opname, pattern, letters, ref_cache=None):
+def run_case(opname, pattern, letters, ref_cache=None, rot=None):
     op = OPS_BY_NAME[opname]
-    case = dict(op=opname, pattern=pattern, letters={r: "".join(v) for r, v in letters.items()})
+    case = dict(op=opname, pattern=pattern, letters={r: "".join(v) for r, v in letters.items()}, rot=rot)
     which = [r for r in letters if tuple(letters[r]) != tuple(op["parts"][r][0])]
 
     def fail(kind, what):
@@ -249,7 +249,8 @@ def run_case(opname, pattern, letters, ref_cache=None):
             ref_cache["ref"] = ref
     provs = None
     if which:
-        rot = sum((i + 1) * ord(c) for r in sorted(letters) for i, c in enumerate(letters[r])) % 3
+        if rot is None:
+            rot = sum((i + 1) * ord(c) for r in sorted(letters) for i, c in enumerate(letters[r])) % 3
         provs = (("C", "F", "view"), ("F", "view", "C"), ("view", "C", "F"))[rot]
     st, got = attempt(lambda: run_op(opname, pattern, letters, provs))
     if isinstance(ref, tuple) and ref and ref[0] == "raised":
@@ -352,8 +353,9 @@ def run_unit(u):
     cache = {}
     for letters in perm_variants(op["parts"], u["tier"]):
         ident = all(tuple(letters[r]) == tuple(op["parts"][r][0]) for r in letters)
-        oc, f = run_case(u["op"], u["pattern"], letters, cache)
-        rec(oc, f, nt=not ident)
+        for rot in ((None,) if ident else (0, 1, 2)):
+            oc, f = run_case(u["op"], u["pattern"], letters, cache, rot)
+            rec(oc, f, nt=not ident)
     if u["op"] == "x*y [overlap]" and u["pattern"] == "all2":
         res["samples"].append(dict(op=u["op"], pattern="all2", letters=dict(x="cab", y="bcd"), meaning="x stored as (c,a,b) instead of (a,b,c), values transposed accordingly: x*y must have the same entry under every label combination; result order (c,a,b,d)"))
     return res
@@ -363,5 +365,5 @@ def replay(case):
     if case["op"] == "lifetime":
         oc, f = run_lifetime_case(case["dist"], case["pshape"], case["grid"])
     else:
-        oc, f = run_case(case["op"], case["pattern"], {r: tuple(v) for r, v in case["letters"].items()})
+        oc, f = run_case(case["op"], case["pattern"], {r: tuple(v) for r, v in case["letters"].items()}, None, case.get("rot"))
     return [f] if f else []
